@@ -31,6 +31,9 @@ type CountingAllocator struct {
 	// OnNew, when set, runs once at the start of the next NewBlock call: something that happens concurrently
 	// with a reservation that holds the store lock (a reader detecting corruption does not need the lock).
 	OnNew func()
+	// SlotAbs maps the device offset of a block to the absolute index (0 = first block ever allocated) of the
+	// block that was placed there most recently.
+	SlotAbs map[int64]int64
 }
 
 type countingBlock struct {
@@ -52,7 +55,13 @@ func (a *CountingAllocator) NewBlock() (local.Block, *pb.BlockLocation, error) {
 	if err != nil {
 		return nil, nil, err
 	}
-	a.News.Add(1)
+	n := a.News.Add(1)
+	if l != nil {
+		if a.SlotAbs == nil {
+			a.SlotAbs = map[int64]int64{}
+		}
+		a.SlotAbs[l.OffsetBytes] = n - 1
+	}
 	return countingBlock{b, a}, l, nil
 }
 
